@@ -65,6 +65,8 @@ class Rule:
                 out.append("gen " + args[0] + "".join(" " + ("=" + a[1] if a[0] == "lit" else "@" + a[1]) for a in args[1]))
             elif op == "chmod":
                 out.append("chmod " + args[0])
+            elif op == "fail":
+                out.append("fail")
         return out
 
     def sh_lines(self):
@@ -77,6 +79,8 @@ class Rule:
                 out.append("{ " + parts + "; } > " + args[0])
             elif op == "chmod":
                 out.append("chmod +x " + args[0])
+            elif op == "fail":
+                out.append("false")
         return out
 
 
@@ -367,6 +371,123 @@ def suite_c10(seed, thorough):
             ws.close()
     return res.as_dict()
 
+
+
+# ---------------------------------------------------------------------------------------------------
+# general histories on the real file system: the real binary (main.rs argument handling, RealSystem, /bin/sh,
+# OS threads under the OS scheduler) against the model, op by op
+# ---------------------------------------------------------------------------------------------------
+
+def suite_hist(seed, thorough):
+    rng = random.Random(seed * 7919 + 1)
+    res = Result("real_hist")
+    n = 150 if thorough else 12
+    for k in range(n):
+        rules, leaves = gen_rules(rng, 5 if thorough else 4, k % 2 == 0)
+        # a failing rule now and then: its command exits non-zero after (not) writing
+        if rng.random() < 0.3:
+            r = rng.choice(rules)
+            r.script = [("fail", ())] if rng.random() < 0.5 else r.script + [("fail", ())]
+        targets = sorted(t for r in rules for t in r.targets)
+        ops = [("write", "build.rules", None)] + [("write", l, rng.choice(["X", "Y", "Z", "XY"]).encode()) for l in leaves]
+        for _ in range(rng.randint(4, 12 if thorough else 9)):
+            roll = rng.random()
+            if roll < 0.40:
+                ops.append(("build", rng.choice([None, None] + targets)))
+            elif roll < 0.50:
+                ops.append(("clean", rng.choice([None] + targets)))
+            elif roll < 0.68:
+                ops.append(("write", rng.choice(leaves), rng.choice(["X", "Y", "Z", "XY", ""]).encode()))
+            elif roll < 0.76:
+                ops.append(("write", rng.choice(targets), b"tampered"))
+            elif roll < 0.84:
+                ops.append(("rm", rng.choice(targets + leaves)))
+            elif roll < 0.90:
+                ops.append(("chmod", rng.choice(targets), rng.random() < 0.7))
+            elif roll < 0.94:
+                ops.append(("rmruler",))
+            elif roll < 0.97:
+                ops.append(("rmcachedir",))
+            else:
+                ops.append(("rmtable",))
+        ops.append(("build", None))
+        ws = Workspace("hist")
+        try:
+            impl_obs, model_ops, log = [], [], []
+            for op in ops:
+                io = None
+                if op[0] == "write":
+                    content = render(rules, False).encode() if op[1] == "build.rules" else op[2]
+                    ws.write(op[1], content)
+                    mcontent = render(rules, True).encode() if op[1] == "build.rules" else op[2]
+                    model_ops.append(f"(write {hx(op[1])} {hx(mcontent)})")
+                elif op[0] == "rm":
+                    ws.remove(op[1]); model_ops.append(f"(rm {hx(op[1])})")
+                elif op[0] == "chmod":
+                    ws.chmod(op[1], op[2]); model_ops.append(f"(chmod {hx(op[1])} {'T' if op[2] else 'F'})")
+                elif op[0] == "rmruler":
+                    shutil.rmtree(ws.path(".ruler"), ignore_errors=True); model_ops.append("(rmruler)")
+                elif op[0] == "rmcachedir":
+                    shutil.rmtree(ws.path(".ruler/cache"), ignore_errors=True); model_ops.append("(rmcachedir)")
+                elif op[0] == "rmtable":
+                    ws.remove(".ruler/current_file_states"); model_ops.append("(rmtable)")
+                else:
+                    goal = op[1]
+                    rc, banners, err = ws.ruler([op[0]] + ([goal] if goal else []))
+                    model_ops.append(f"({op[0]} {'none' if goal is None else '(some ' + hx(goal) + ')'})")
+                    io = (op, banners, err.strip(), rc)
+                impl_obs.append(io)
+                files, cache, hist = ws.listing()
+                log.append((op, files, cache, hist))
+            case = f"(history F #1000000 (l {' '.join(model_ops)}))"
+            model_out = run_model([case])[0]
+            mobs = split_top(model_out)[1:]
+            res.evaluations += 1
+            res.nontrivial.add(hash(case))
+            res.count(f"ops:{min(len(ops), 20) // 5 * 5}")
+            replay = {"suite": "real_hist", "rules_sh": render(rules, False), "ops": [str(o) for o in ops], "case": case}
+            if len(res.samples) < 3:
+                res.samples.append({"ops": [str(o) for o in ops], "rules": render(rules, False)})
+            for idx, ((op, files, cache, hist), io, mo) in enumerate(zip(log, impl_obs, mobs)):
+                cols = split_top(mo)
+                if len(cols) != 8:
+                    res.diffs.append({"index": idx, "case": case[:3000], "impl": "?", "model": mo[:500]})
+                    break
+                m_verdict, m_status, m_files, m_cache, m_hist = cols[1], cols[3], drop_rules_file(cols[4]), cols[5], cols[6]
+                i_files, i_cache = show_files(files), show_cache(cache)
+                bad = None
+                if i_files != m_files:
+                    bad = ("files", i_files, m_files)
+                elif i_cache != m_cache:
+                    bad = ("cache", i_cache, m_cache)
+                else:
+                    # history files: the same NUMBER of rule histories (the names are hashes of the rules, whose command
+                    # text is sh here and the mini-language in the model; contents are compared by the in-memory suites)
+                    i_names = None if hist is None else len([n for n in hist if not n.endswith(".partial")])
+                    m_names = None if m_hist == "none" else len(split_top(m_hist)[1:])
+                    if i_names != m_names:
+                        bad = ("history-files", str(i_names), str(m_names))
+                if not bad and io is not None:
+                    res.count("invocations")
+                    i_status = sorted(f"({b} {hx(p)})" for b, p in io[1])
+                    m_stat = sorted(split_top(m_status)[1:])
+                    if i_status != m_stat:
+                        bad = ("status", str(i_status), str(m_stat))
+                    elif (io[3] == 0 and io[2] == "") != (m_verdict == "ok"):
+                        bad = ("verdict", f"exit {io[3]} stderr {io[2][:200]!r}", m_verdict)
+                    else:
+                        res.count("verdict:" + ("ok" if m_verdict == "ok" else "not-ok"))
+                if bad:
+                    res.diffs.append({"index": idx, "case": case[:3000], "impl": f"{bad[0]}: {bad[1][:1500]}", "model": f"{bad[0]}: {bad[2][:1500]}"})
+                    break
+                # C07 on the real file system
+                for name, (content, _) in (cache or {}).items():
+                    if name != name_of(content):
+                        res.violation("C07:cache-entry-misnamed", f"real file system: cache entry {name} holds content whose hash is {name_of(content)}", replay)
+                        break
+        finally:
+            ws.close()
+    return res.as_dict()
 
 # ---------------------------------------------------------------------------------------------------
 # C15: `ruler hash` on the real file system
@@ -663,4 +784,4 @@ def suite_c19(seed, thorough):
     return res.as_dict()
 
 
-SUITES = {"real_c10": suite_c10, "real_c15": suite_c15, "real_c19": suite_c19}
+SUITES = {"real_hist": suite_hist, "real_c10": suite_c10, "real_c15": suite_c15, "real_c19": suite_c19}
